@@ -1216,6 +1216,12 @@ impl GlobalInferenceCtx<'_> {
                             }
                         }
                         Expr::Local(local) => self.tys[self.loc].local_tys[*local],
+                        // these have the type of what is inside of them,
+                        // so they have to follow it when it changes (`x := (3000000000);`)
+                        Expr::Paren(Some(inner)) => self.tys[self.loc][*inner],
+                        Expr::Comptime(comptime) => {
+                            self.tys[self.loc][self.bodies[*comptime].body]
+                        }
                         Expr::Member {
                             previous,
                             name: field,
